@@ -78,6 +78,11 @@ type finding struct {
 // budgetQuick/budgetThorough are the internal deadlines (the check stops
 // exploring when they pass, reports exhaustive:false and still exits 0).
 func Start(id, level string, budgetQuick, budgetThorough time.Duration) *Run {
+	// A part of one check can be run as a part of another property's check as well
+	// (parts.txt: env:VERIF_ID=Cxx): it then reports under that property.
+	if v := os.Getenv("VERIF_ID"); v != "" {
+		id = v
+	}
 	r := &Run{ID: id, Level: level, start: time.Now(), knownHit: map[string]int{}, outcomes: map[string]int64{}, sampleCap: 6}
 	r.Tier = os.Getenv("VERIF_TIER")
 	if r.Tier != "thorough" {
